@@ -24,20 +24,23 @@ PROPS = {
         "technique": "deterministic simulation: seeded schedules over deref/reset!/swap! histories; porcupine linearizability + hang detection + race detector",
         "level_text": "Seeded search over interleavings of concurrent atom operations executed by the real interpreter under a token scheduler; "
                       "every recorded history is checked for linearizability against the sequential atom model (porcupine), hangs are decided by the "
-                      "scheduler (no enabled task / horizon), data races by the Go race detector on the same tapes. Evidence, not proof: interleavings "
+                      "scheduler (no enabled task / horizon), data races by the Go race detector on the same tapes. Rare run shapes reach long histories: a siege schedule makes one swap! lose 40-2100 "
+                      "compare-and-set rounds in a row, a flood fills memoize's table with up to 1100 entries against concurrent lookups. Evidence, not proof: interleavings "
                       "are sampled at hook granularity.",
         "level_note": "Trusts the simulator (token scheduler, synctest clock), porcupine, ThreadSanitizer; operations inside a Go builtin or an env critical section are atomic in the simulation.",
-        "rule": "one run = one seeded tape: 1-3 atoms holding lists of unique tokens, 2-5 simulated caller threads x 1-6 operations from 33 kinds (printing an atom is a read) (deref in both forms, reset!, "
+        "rule": "one run = one seeded tape: 1-3 atoms holding lists of unique tokens, 2-5 simulated caller threads x 1-6 operations from 34 kinds (printing an atom is a read; one kind's update function starts a future that later swaps the same atom) (deref in both forms, reset!, "
                 "swap! with pure, wide, builtin, extra-argument (1 and 3 extra arguments), always-failing, late-failing, value-dependent failing (bounded), type-error, atom-reading, "
                 "self-reading and other-atom-updating/resetting update functions, swap! inside let, some wrapped in futures, plus gensym and memoize), every atom access - also the ones "
                 "nested inside update functions - recorded as an operation; swap! through the builtin update with a callback reading the atom being swapped; fault: one operation in eight runs under a context of its own that is "
                 "cancelled at a drawn hook point inside it (an operation that ended with that timeout error is placed by whether anybody saw its unique token); memoize histories additionally require that a call invoked after an earlier call with the same argument returned "
-                "does not compute again. Scheduling: seeded quantum walk, PCT (depth 1-3) or starvation, at evaluation steps, statement-level yields "
+                "does not compute again. Two rare run shapes for long histories: siege (1 run in 120: the scheduler parks one swap! in every read/apply window and lets a second thread complete one reset! each time, 40-2100 rounds in a row; "
+                "the whole history goes to porcupine) and flood (1 run in 150: 100-1100 memoized calls with distinct arguments against concurrent lookups of seven small ones; values only are judged). Scheduling: seeded quantum walk, PCT (depth 1-3) or starvation, at evaluation steps, statement-level yields "
                 "inserted into lib/concurrent/concurrent.go, lock acquisitions (with RWMutex writer preference emulated) and the swap! read/apply/retry windows. "
                 "non-trivial = at least 2 tasks, more than one token switch and at least one preemption inside a named or auto-inserted window; "
                 "distinct = distinct hash of the sequence of (task, hook point) pairs at which the token changed hands",
         "assumptions": COMMON_ASSUMPTIONS + ["an update function that updates the very atom being swapped is excluded (as in the property)"],
-        "must_hit": ["preempt:atom.swap.read", "preempt:atom.swap.applied", "point:atom.swap.retry", "porcupine_ok", "fault:operation-context-cancelled", "cancelled_operation_took_effect", "cancelled_operation_without_effect"],
+        "must_hit": ["preempt:atom.swap.read", "preempt:atom.swap.applied", "point:atom.swap.retry", "porcupine_ok", "fault:operation-context-cancelled", "cancelled_operation_took_effect", "cancelled_operation_without_effect",
+                     "programs:siege", "reach:swap-lost-1000-rounds-in-a-row", "programs:memoize-flood", "reach:memoize-table-above-512-entries"],
         "race": True, "race_share": 0.4,
     },
     "C10": {
@@ -52,7 +55,7 @@ PROPS = {
         "level_note": "Trusts the simulator, the synctest clock and ThreadSanitizer; 'completed' is defined from observable events only (body thread ended, an outcome-returning deref or a true future-done? returned earlier).",
         "rule": "one run = one seeded tape: a creator thread defines 1-2 futures (body: value, nil, false, collection, throw, failing builtin, context-aware gate, context-ignoring gate, "
                 "gate then throw, sleep, busy loop, future-call of a fn, nested future, deref of the other future, bodies that wait or sleep inside a try whose handler returns, bodies whose error has passed through two nested futures; in a third of the two-future runs the second future is started by the first "
-                "one's body and outlives it), 1-4 caller threads x 1-5 operations (deref with/without deadline, future-done?, future-cancelled?, future-cancel, naps), a gatekeeper opening "
+                "one's body and outlives it), 1-4 caller threads x 1-5 operations (deref with/without deadline, future-done?, future-cancelled?, future-cancel, naps, printing the future), a gatekeeper opening "
                 "gates at scheduler-chosen instants, now and then 130-170 futures blocked at a gate are created first, in a quarter of the runs a deadline on the creator's context, sometimes one that has already passed when the future is created; code that "
                 "uses TryLock is run in contention mode (another thread is parked holding the lock when the attempt is made); step cost 0, 1us or 50us. Oracles: obligations O1-O6 over the history, a deref's wake-up "
                 "instant against its deadline, and the whole status history against a sequential specification with porcupine. "
@@ -139,10 +142,10 @@ PROPS = {
                 "symbol resolves to in handlers, finally bodies and after the form, throws of 24 kinds of values including code-looking lists and symbols and collections that contain them, throws raised inside a swap! update function,  body-less try forms, calls through 1-3 "
                 "function levels, apply, a Go builtin that calls back and wraps the callback's error in an error of its own, callbacks of update / update-in / map / swap! / reduce, closures that escape a handler, and now and then one evaluation that catches ten thousand failures in a row, the value expression of a macro definition, user and library macros, let shadowing the catch symbol) executed under the fault-free plan, EVERY single-fault plan (site x {error, %w-wrapped error, "
                 "panic with an error - for raw builtins where an enclosing try body recovers it -, panic with a non-error value, lisp value thrown from Go, budget timeout: the probe waits on the "
-                "fake clock until the context it was handed ends}) and 2 (thorough: 12) drawn multi-fault plans, each under a one-hour simulated deadline. evaluations counts runs (programs); "
+                "fake clock until the context it was handed ends}) and 2 (thorough: 12) drawn multi-fault plans, each under a simulated deadline that is a knob of the run: one hour, or 40 / 120 / 250 years away (the far-away runs get no budget-timeout faults: all plans of a run share one fake clock, which cannot pass the year 2262). evaluations counts runs (programs); "
                 "plans_executed counts executions. non-trivial = the program has at least one probe site and a fault actually fired; distinct = distinct program text",
         "assumptions": COMMON_ASSUMPTIONS[:1] + ["a raw types.Func that panics is outside the statement (no recovery promised)", "a panic with a non-error value inside a lib/call builtin is treated as a throw of that value"],
-        "must_hit": ["fault:err", "fault:err-wrapped", "fault:panic-err", "fault:panic-val", "fault:throw-val", "plans_with_fault"],
+        "must_hit": ["fault:err", "fault:err-wrapped", "fault:panic-err", "fault:panic-val", "fault:throw-val", "plans_with_fault", "knob:deadline-decades-away"],
         "race": False,
     },
     "C18": {
